@@ -20,9 +20,27 @@ VALS = {1: "1", 2: "2", 3: "3", 7: "7", 8: "8", 9: "9"}
 
 
 def cell_xml(v, k=1):
+    """v: int | None | "S" (styled empty) | "C" (covered, empty) | ["O", value, colspan, rowspan]
+    | str starting with "=" is not used; other str -> string cell."""
     rep = f' table:number-columns-repeated="{k}"' if k > 1 else ""
     if v is None:
         return f"<table:table-cell{rep}/>"
+    if v == "S":
+        return f'<table:table-cell table:style-name="ce1"{rep}/>'
+    if v == "C":
+        return f"<table:covered-table-cell{rep}/>"
+    if isinstance(v, (list, tuple)) and v and v[0] == "O":
+        _, val, cs, rs = v
+        return (
+            f'<table:table-cell office:value-type="float" office:value="{val}" '
+            f'table:number-columns-spanned="{cs}" table:number-rows-spanned="{rs}"{rep}>'
+            f"<text:p>{val}</text:p></table:table-cell>"
+        )
+    if isinstance(v, str):
+        return (
+            f'<table:table-cell office:value-type="string" office:string-value="{v}"{rep}>'
+            f"<text:p>{v}</text:p></table:table-cell>"
+        )
     return (
         f'<table:table-cell office:value-type="float" office:value="{v}"{rep}>'
         f"<text:p>{v}</text:p></table:table-cell>"
